@@ -318,6 +318,9 @@ class World:
             config.setdefault("hash_name", self.alg)
         # (the caller's spelling of the store path: plain, or with a trailing separator - a configured "cache/dir/")
         path = self.store_path(s) + (os.sep if self.store_spelling == "slash" else "")
+        if self.store_spelling == "dotrel":
+            os.chdir(self.root)          # (cases run one after another in a worker process)
+            path = "." + os.sep + os.path.relpath(self.store_path(s), self.root)
         return cls(fsobj, path, **config)
 
     def use_real_state(self, warm: bool):
